@@ -197,8 +197,24 @@ def o_mutant(rec: Recorder, case, soft=False):
             field = set(alnum + "./")
         lenient_b64 = name in ("cta_pbkdf2_sha1", "atlassian_pbkdf2_sha1", "django_pbkdf2_sha1", "django_pbkdf2_sha256", "fshp", "ldap_md5", "ldap_sha1", "ldap_salted_md5",
                                "ldap_salted_sha1", "ldap_salted_sha256", "ldap_salted_sha512", "scrypt")  # stdlib decoder ignores junk and anything after '=' padding
-        if not lenient_b64 and cls not in ("letter-case", "int-decoration", "base64-lenient", "mssql2000-unused-half") and set(mm) <= field and set(hm) <= field and mm.lower() != hm.lower() \
-                and not (len(mm) == len(hm) == 1) and not (name == "django_des_crypt" and mtext.startswith("crypt$$")):  # documented elided-salt form
+        single = len(mm) == len(hm) == 1
+        if single:
+            # a one-character substitution is an unused-padding-bits re-encoding only at the end of a base64 salt / digest field
+            # (bcrypt: also the 22nd salt character); anywhere else (a parameter name, a separator keyword) it is an altered field
+            nxt = hs[i0 + 1 : i0 + 2]
+            seg = hs[:i0]
+            in_data_field = hs.count("$", i0) <= 1 or "$" not in hs
+            if name == "scram":  # $scram$rounds$salt$alg=digest,alg=digest: every digest ends before ',' or the end
+                in_data_field = hs.count("$", i0) == 0 and "=" in hs[hs.rfind(",", 0, i0) + 1 : i0]
+            pad_pos = in_data_field and nxt in ("", "$", "=", ",") and not (seg.endswith(",") or seg.endswith("$"))
+            if "bcrypt" in name:
+                pad_pos = pad_pos or (hs.count("$", i0) == 0 and len(hs) - i0 == 32)
+            single_ok = pad_pos and mm in field and hm in field
+        else:
+            single_ok = False
+        judged_lenient = lenient_b64 and not (single and not single_ok)
+        if not judged_lenient and cls not in ("letter-case", "int-decoration", "base64-lenient", "mssql2000-unused-half") and set(mm) <= field and set(hm) <= field and mm.lower() != hm.lower() \
+                and not single_ok and not (name == "django_des_crypt" and mtext.startswith("crypt$$")):  # documented elided-salt form
             rec.fail(f"C08/altered-field-accepted/{name}", f"{name}: a hash with a textually altered field ({hm!r} -> {mm!r}) is normalised back and verifies the original password ({label})",
                      "mutant", case, short(mtext, 200), short(hs, 200), soft=soft)
             return
@@ -348,10 +364,14 @@ def t_sweep(rec, seed, tier, name):
         rec.count(f"skipped_unavailable:{name}")
         return
     nh = 1 if tier == "quick" else 6
+    # quick tier: the other ident / variant forms of the format get the (cheap) truncation-at-every-position sweep only
+    nvar = max([len(v) for v in table.T[name].extra.values()] + [1])
     n = 0
-    for i in range(nh):
+    for i in range(max(nh, min(nvar, 4))):
         hs, s, ctx, secret = make_hash(name, i)
         for label, pos, m in single_edits(hs, per_pos=3 if tier == "quick" else 4):
+            if i >= nh and label != "truncate":
+                continue
             if tier == "quick" and len(hs) > 120 and label != "subst" and pos % 2:
                 continue
             forms = [m]
